@@ -6,6 +6,7 @@ import (
 	"bytes"
 	"encoding/binary"
 	"reflect"
+	"time"
 	"unicode/utf8"
 
 	"github.com/tormoder/fit/internal/types"
@@ -166,10 +167,85 @@ func H07a() {
 		a, b := gc.Field(i), fc.Field(i)
 		if a.Kind() == reflect.Slice {
 			vAssert(a.Len() == b.Len(), "C07.counts")
+			if a.Len() == b.Len() {
+				for j := 0; j < a.Len(); j++ {
+					vSameUpToProfile(a.Index(j).Elem(), b.Index(j).Elem())
+				}
+			}
 		} else {
 			vAssert(a.IsNil() == b.IsNil(), "C07.counts")
+			if !a.IsNil() && !b.IsNil() {
+				vSameUpToProfile(a.Elem(), b.Elem())
+			}
 		}
+	}
+	if gmn == MesgNumFileId {
+		vSameUpToProfile(reflect.ValueOf(g.FileId), reflect.ValueOf(f.FileId))
 	}
 	vReached("roundtrip")
 	vReached("end")
+}
+
+// vSameUpToProfile compares a re-decoded message (got) with the message first
+// decoded (orig): scalars, times and coordinates equal; arrays equal on the
+// elements the profile length keeps (and present when the original was);
+// strings: the re-decoded one is a prefix of the original that lost at most
+// what the profile length cuts off. Component destinations are skipped.
+func vSameUpToProfile(got, orig reflect.Value) {
+	gmn := getGlobalMesgNum(orig.Type())
+	skip := vComponentDests(orig.Type().Name())
+	tab := profileFieldDef(gmn)
+	for i := 0; i < orig.NumField(); i++ {
+		name := vFieldName(orig.Interface(), i)
+		sk := false
+		for _, s := range skip {
+			if s == name {
+				sk = true
+			}
+		}
+		if sk {
+			continue
+		}
+		pf := getFieldBySindex(i, tab)
+		L := int(pf.length)
+		a, b := got.Field(i), orig.Field(i)
+		switch b.Kind() {
+		case reflect.Slice:
+			if b.Type().Elem().Kind() == reflect.String {
+				continue // string arrays cannot be encoded (messages that carry them are not hosted)
+			}
+			n := b.Len()
+			if n > L {
+				n = L
+			}
+			ok := a.Len() >= n
+			if ok {
+				for j := 0; j < n; j++ {
+					if a.Index(j).Interface() != b.Index(j).Interface() {
+						ok = false
+					}
+				}
+			}
+			vAssert(ok, "C07.values.array-up-to-profile-length")
+		case reflect.String:
+			sa, sb := a.String(), b.String()
+			ok := len(sa) <= len(sb) && sb[:len(sa)] == sa
+			keep := len(sb)
+			if keep > L-1 {
+				keep = L - 1
+			}
+			vAssert(ok && len(sa) >= keep-3, "C07.values.string-up-to-profile-length")
+		case reflect.Struct:
+			if ta, isT := a.Interface().(time.Time); isT {
+				tb := b.Interface().(time.Time)
+				_, oa := ta.Zone()
+				_, ob := tb.Zone()
+				vAssert(ta.Unix()+int64(oa) == tb.Unix()+int64(ob), "C07.values.time")
+			} else {
+				vAssert(a.Interface() == b.Interface(), "C07.values.coordinate")
+			}
+		default:
+			vAssert(a.Interface() == b.Interface(), "C07.values.scalar")
+		}
+	}
 }
